@@ -6,6 +6,7 @@ pub mod exec;
 pub mod exec2;
 pub mod gen;
 pub mod hashers;
+pub mod huge;
 pub mod interp;
 pub mod model;
 pub mod ops;
